@@ -238,7 +238,7 @@ func TestC09Close(t *testing.T) {
 		peers := gen.Peers(r, 2)
 		self, other := peers[0], peers[1]
 		f := newGsMgrFix(c, self, nil)
-		useStore := gsState == 1 || r.Intn(3) == 0
+		useStore := gsState == 1 || gsState == 2 || r.Intn(3) == 0
 		if useStore {
 			for _, t := range regTypes {
 				f.m.RegisterTransportConfigurer(datatransfer.TypeIdentifier(t), func(chid datatransfer.ChannelID, v datatransfer.TypedVoucher) []datatransfer.TransportOption {
@@ -322,6 +322,15 @@ func TestC09Close(t *testing.T) {
 			}
 		}
 		settle()
+		if useStore && rl.Initiator && gsState == 2 && r.Intn(2) == 0 {
+			// the channel is restarted before it ends: transport options (the per-channel store) are applied
+			// again; what was registered must still be released exactly once when the channel ends
+			if err := f.m.RestartDataTransferChannel(bg, chid); err != nil {
+				c.Note("restart before close: %v", err)
+			}
+			settle()
+			c.Count("restarted_with_store_before_ending", 1)
+		}
 		before := f.view(chid)
 		if before == nil || isTerminal(before.Status) {
 			// completed on its own: closing a terminated channel is C02's business
